@@ -6,10 +6,12 @@ Ops (one line each, same line to the real code and to the Lean driver, see lean/
                                       verif.driver.run([files…, -m …, options…, -f tmp/out.<ext>])
   figindep <plot> <n> <opts> <flag>   flags whose documented property differs with / without <flag>
 
+<plot>: a plot kind of PLOTS (the standard plot on a lead-time / location / date axis, -type map / rank / impact /
+maprank, every documented diagram, -hist, -sort).
 <opts>: `;`-separated `flag=value` in command-line order, values in canonical form (numbers as protocol tokens
-`25/2`, an rgb colour as `[r:g:b]`, a flag without value as `1`, `-f=out.<ext>` last).  `impl` translates them to
-command-line spelling, runs the REAL driver in-process (Agg backend) and reads the live matplotlib figure back
-(Output._save_plot and mpl.savefig are intercepted from here; nothing in /repo is touched).
+`25/2`, an rgb colour as `[r:g:b]`, a flag without value as `1`, dates as YYYYMMDD integers, `-f=out.<ext>` last).
+`impl` translates them to command-line spelling, runs the REAL driver in-process (Agg backend) and reads the live
+matplotlib figure back (Output._save_plot and mpl.savefig are intercepted from here; nothing in /repo is touched).
 """
 import atexit
 import contextlib
@@ -25,8 +27,8 @@ import warnings
 from common import xr, from_xr
 
 ID = "C17"
-TARGETS = ["Proofs.C17", "Proofs.GenEq.Appearance"]
-GEN_PREFIXES = ["appearance."]
+TARGETS = ["Proofs.C17", "Proofs.GenEq.Appearance", "Proofs.C17Kinds", "Proofs.C17Time"]
+GEN_PREFIXES = ["appearance.", "wiring."]
 
 # (flag, field name in the FigProps line) in the order of Spec.Appearance.Field.all
 TABLE = [("-title", "title"), ("-titlefs", "titlefs"), ("-xlabel", "xlabel"), ("-ylabel", "ylabel"),
@@ -47,46 +49,73 @@ THEOREMS = {
                     "C17_independent_of_other_flags"] + ["C17_effect_" + f.lstrip("-") for f in FLAGS]],
     "Proofs.GenEq.Appearance": ["VerifModel.GenEq.Appearance." + t for t in
                                 ["tables_interned", "reads_interned", "setters_interned"]],
+    "Proofs.C17Kinds": ["VerifModel.C17Kinds." + t for t in
+                        ["C17_kinds_wired", "C17_shown_partial", "C17_droc_log_not_shown", "C17_render_shows"]],
+    "Proofs.C17Time": ["VerifModel.C17Time." + t for t in
+                       ["C17_time_axis", "C17_time_values", "C17_time_limits", "C17_time_kinds"]],
 }
 TRUSTED_BASE = [
     "Lean 4.33 kernel; axioms propext, Classical.choice, Quot.sound only",
     "Spec/Appearance.lean: my reading of the help text (flag -> figure property, value type, '_' convention, the "
-    "documented dependencies -nogrid/-legfs 0/-a/-nomargin/-f, which plot kinds have a legend / per-input lines / "
-    "a colour bar / annotations)",
+    "documented dependencies -nogrid/-legfs 0/-a/-nomargin/-f) and of the descriptions of the diagrams (which plot kinds "
+    "draw one line / set of points / set of bars per input, which are made of panels, which have a legend that names the "
+    "inputs, a date axis, a perfect score); Spec/TimeAxis.lean: a date lies on a date axis as many days from 1970-01-01 as "
+    "the textbook calendar counts",
     "harness/translate.py gen_appearance: AST walk of driver.run (argument loop, pl.<attr> block, Data keywords) and of "
-    "output.py (reads, enclosing `if self.<attr>` tests, flow of self.<attr> into call arguments); validated each run "
-    "by the correspondence itself: the model reply is computed from the routes these tables give and must equal what "
-    "is read from the live figure",
+    "output.py (reads, enclosing `if self.<attr>` tests, flow of self.<attr> into call arguments); gen_wiring: the output "
+    "class and entry method the driver selects, per class where the dictionary of _get_plot_options goes, the form of "
+    "_adjust_axes / _legend, legends drawn by the core methods, skip_log, default_axis, is_time_like; both validated each "
+    "run by the correspondence itself: the model reply is computed from these tables and must equal what is read from the "
+    "live figure",
     "Model/FigProps.lean setterField: the meaning of ~50 matplotlib calls (ax.set_xlim sets the x limits, …) — "
-    "hand-written, tied by stream fig.props on the live figure",
-    "that every plot class hands _get_plot_options() to its lines, Data.get_legend() to the legend, and calls "
-    "_adjust_axis on the axes it draws (read back from the live figure for standard, location, pithist, reliability, "
-    "against and map plots only)",
+    "hand-written, tied by the streams on the live figure",
+    "that mpl.plot(**opts) / mpl.bar(color=…, lw=…) draw with these styles, that Data.get_legend() carries the -leg names, "
+    "that the maps adjust each panel inside _map_core: read back from the live figure for every plot kind (all 28 "
+    "documented diagrams, -hist, -sort, the standard plot on three axes, -type map / rank / impact / maprank)",
     "matplotlib: artist properties <-> pixels, colour-name table, savefig writers (format checked by magic bytes, "
-    "raster size and dpi metadata)",
+    "raster size and dpi metadata); date numbers count days from 1970-01-01 (matplotlib's default epoch, 3.11.2 here) — "
+    "the oracle measures date limits against the plotted data points, so another epoch shows as a correspondence "
+    "mismatch, not as a false pass",
 ]
 ASSUMPTIONS = [
     "values are valid for the option (known legend location, valid colour / line style / marker, lower < upper, "
-    "positive limits and ticks, as many tick labels as ticks, as many -leg names as inputs)",
-    "per-input line options are judged where the plot draws one line per input (standard plot, reliability diagram), "
-    "legend options where a legend exists, -sp on the standard plot, -clabel/-clim on -type map, -a/-af/-afs on the "
-    "standard plot and the map ('not supported by all metrics')",
+    "positive limits and ticks, as many tick labels as ticks, as many -leg names as inputs; on a date axis -xlim / -xticks "
+    "are calendar dates YYYYMMDD of 1900..2100, around the data only on the meteogram, and no -xlog together with them)",
+    "per-input line options are judged where the plot kind draws one line / point set / bar set per input, legend "
+    "options where a legend exists, -sp where the plot kind has a perfect score, -clabel/-clim on -type map, -a/-af/-afs "
+    "on the standard plot and the map ('not supported by all metrics') — Spec.Appearance.applicable, proved to agree with "
+    "the regenerated wiring tables (C17_kinds_wired)",
+    "on the 27 diagrams of fig.core only the 16 core options (and -sp) are exercised; -type rank / impact / maprank and the "
+    "date axis get every option alone, not the random subsets (except the date axis)",
 ]
 RULE = ("fig.props: random subsets (inclusion probability 0.1-0.5 per option) and values of the 42 appearance options "
-        "on -m mae -x leadtime (2 inputs), -m mae -x location, -m pithist, -m reliability -r 5, -m against (3 inputs) "
-        "and -m mae -type map, written to png/jpg/pdf/svg/eps; fig.single: every option alone on every plot kind it "
-        "applies to; fig.indep: for each multi-option figure one option is dropped and every other option's property "
-        "is compared between the two live figures; an op is non-trivial if the reply shows at least one property")
+        "on -m mae -x leadtime (2 and 5 inputs), -x location, -x time (dates as limits / ticks), -m pithist, "
+        "-m reliability -r 5, -m against (3 inputs) and -m mae -type map, written to png/jpg/pdf/svg/eps; fig.single: every "
+        "option alone on every such plot kind it applies to, every core option alone on -x time and -type rank / impact / "
+        "maprank, -sp on every kind with a perfect score; fig.core: the 16 core options (-title -xlabel -ylabel -xlim -ylim "
+        "-lc -lw -leg -legfs -xlog -ylog -labfs -tickfs -nogrid -dpi -fs) on all 28 documented diagrams and -hist / -sort, "
+        "on deterministic / probabilistic / ensemble text files: quick one figure per group of 2-3 options and diagram, "
+        "thorough also every option alone and 8 random subsets per diagram; fig.indep: for each multi-option figure one "
+        "option is dropped and every other option's property is compared between the two live figures; an op is "
+        "non-trivial if the reply shows at least one property")
 EXHAUSTIVE = {"quick": False, "thorough": False}
-EXHAUSTIVE_NOTE = "every option alone on every applicable plot kind is enumerated; subsets and values are sampled"
-LEVEL_TEXT = ("Lean theorems on tables regenerated from driver.py/output.py each run: every documented appearance "
+EXHAUSTIVE_NOTE = ("every option alone on every applicable plot kind of fig.single, every core option on every documented "
+                   "diagram is enumerated (thorough: alone); subsets and values are sampled")
+LEVEL_TEXT = ("Lean theorems on tables regenerated from driver.py/output.py/axis.py each run: every documented appearance "
               "flag is parsed into a local that is assigned to an Output attribute (or Data keyword) that an output "
               "method reads, lands in exactly the documented figure property, no other flag lands there, no read is "
-              "guarded by another option's attribute except documented dependencies; in the model each option sets its "
-              "property to its value (last occurrence wins) and changes no other option's property. Rendering by "
-              "matplotlib and the meaning of the ~50 setter calls are tied by reading back the live figure.")
+              "guarded by another option's attribute except documented dependencies; for each of the 37 plot kinds the "
+              "selected output class runs its core method, adjusts the axes (every panel where the diagram has panels), "
+              "hands the _get_plot_options dictionary to the drawing call exactly where the Spec says per-input styles "
+              "apply, has a -legfs-guarded legend exactly where the Spec says a legend exists, a time-like axis exactly "
+              "where the x-axis shows dates; in the model each option sets its property to its value (last occurrence "
+              "wins), changes no other option's property, and is shown on every plot kind the Spec lists, except the log "
+              "scales of droc/droc0 (known findings, _partial); on a date axis the x limits / ticks that reach the axis "
+              "are the day numbers of the given dates for every valid date of 1900-2100. Rendering by matplotlib and the "
+              "meaning of the ~50 setter calls are tied by reading back the live figure.")
 TECHNIQUE = ("Lean 4 proof over tables regenerated from source by a translator (decide +kernel) plus generic record-update "
-             "lemmas; differential correspondence against the live matplotlib figure; metamorphic independence runs")
+             "lemmas and a calendar proof resting on the kernel walk over 1900-2100; differential correspondence against "
+             "the live matplotlib figure; metamorphic independence runs")
 
 PLOTS = {"mae": (2, ["-m", "mae", "-x", "leadtime"]),
          "loc": (2, ["-m", "mae", "-x", "location"]),
@@ -97,7 +126,78 @@ PLOTS = {"mae": (2, ["-m", "mae", "-x", "leadtime"]),
          # the standard plot with five inputs: more lines than entries in any -lc / -ls / -ma / -lw / -ms list, lists of
          # lengths 2 and 3 side by side (seeded change C17e: one combined style cycle of length max instead of
          # one cycle per option). Same plot kind as "mae" for the Lean model (lean_op).
-         "mae5": (5, ["-m", "mae", "-x", "leadtime"])}
+         "mae5": (5, ["-m", "mae", "-x", "leadtime"]),
+         # a time-like x-axis: the only way into the `if self.axis.is_time_like` branch of Output._adjust_axis
+         # (-xlim / -xticks are YYYYMMDD dates there, converted to matplotlib date numbers)
+         "time": (2, ["-m", "mae", "-x", "time"]),
+         # the other plot types of the standard output
+         "rank": (2, ["-m", "mae", "-type", "rank"]),
+         "impact": (2, ["-m", "mae", "-type", "impact", "-r", "0:2:10"]),
+         "maprank": (2, ["-m", "mae", "-type", "maprank"])}
+
+# every other documented diagram (`verif --help`, "Special diagrams", plus -hist / -sort): stream fig.core
+DIAGRAMS = {"qq": (2, ["-m", "qq"]),
+            "scatter": (2, ["-m", "scatter"]),
+            "cond": (2, ["-m", "cond", "-r", "2,4,6,8"]),
+            "freq": (2, ["-m", "freq", "-r", "2,4,6,8"]),
+            "marginal": (2, ["-m", "marginal"]),
+            "invreliability": (2, ["-m", "invreliability", "-q", "0.9"]),
+            "discrimination": (2, ["-m", "discrimination", "-r", "5"]),
+            "roc": (2, ["-m", "roc", "-r", "5"]),
+            "droc": (2, ["-m", "droc", "-r", "5"]),
+            "droc0": (2, ["-m", "droc0", "-r", "5"]),
+            "performance": (2, ["-m", "performance", "-r", "5"]),
+            "taylor": (2, ["-m", "taylor"]),
+            "error": (2, ["-m", "error"]),
+            "spreadskill": (2, ["-m", "spreadskill", "-r", "0:1:6"]),
+            "murphy": (2, ["-m", "murphy", "-r", "5"]),
+            "economicvalue": (2, ["-m", "economicvalue", "-r", "5"]),
+            "bsdecomp": (2, ["-m", "bsdecomp", "-r", "5"]),
+            "igncontrib": (2, ["-m", "igncontrib", "-r", "5"]),
+            "fss": (2, ["-m", "fss", "-r", "5"]),
+            "autocorr": (2, ["-m", "autocorr"]),
+            "autocov": (2, ["-m", "autocov"]),
+            "timeseries": (2, ["-m", "timeseries"]),
+            "meteo": (1, ["-m", "meteo"]),
+            "change": (2, ["-m", "change"]),
+            "obsfcst": (2, ["-m", "obsfcst"]),
+            "hist": (2, ["-m", "fcst", "-hist"]),
+            "sort": (2, ["-m", "fcst", "-sort"])}
+PLOTS.update(DIAGRAMS)
+# the diagrams of fig.core: the 27 above and the three special diagrams that fig.props already draws
+CORE_KINDS = list(DIAGRAMS) + ["pithist", "reliability", "against"]
+# input files per kind: deterministic (obs fcst), probabilistic (+ p5 pit q0.1 q0.5 q0.9; the default), ensemble (+ e0 e1 e2)
+FAMILY = dict.fromkeys(["qq", "scatter", "cond", "freq", "droc", "droc0", "performance", "taylor", "error", "fss",
+                        "autocorr", "autocov", "change", "obsfcst", "hist", "sort"], "det")
+FAMILY["timeseries"] = "ens"
+
+# ---- structure of each plot kind, written from the descriptions of the diagrams (mirror of Spec/Appearance.lean)
+# every axes of the figure is a sub-plot of equal rank (one per input / pair / panel): options apply to each of them
+ALL_AXES = {"pithist", "against", "map", "igncontrib"}
+# the x-axis shows dates
+TIME_AXIS = {"time", "timeseries", "meteo"}
+# one line per input, labelled with the input's legend name (format of the label); MARKERS: drawn as markers only
+LINE_LABEL = {k: "%s" for k in ["mae", "mae5", "loc", "time", "reliability", "qq", "scatter", "freq", "marginal",
+                                 "invreliability", "roc", "droc", "droc0", "performance", "taylor", "error", "spreadskill",
+                                 "murphy", "economicvalue", "bsdecomp", "igncontrib", "fss", "autocorr", "autocov",
+                                 "timeseries", "change", "obsfcst", "hist", "sort"]}
+LINE_LABEL["cond"] = "%s (F|O)"
+MARKERS = {"loc", "scatter", "performance", "taylor", "error", "bsdecomp", "autocorr", "autocov"}
+# one set of bars per input (or per rank) in the input's colour
+BAR_LABEL = {"discrimination": "%s observed", "rank": "%s"}
+# legend: entries that are not input names, and decorations of the input names
+LEGEND_CONST = {"freq": ["Observed"], "marginal": ["Observed"], "scatter": ["1%", "10%-90%", "99%"],
+                "autocorr": ["1%", "10%-90%", "99%"], "autocov": ["1%", "10%-90%", "99%"], "obsfcst": ["Observed"],
+                "timeseries": ["obs"], "performance": ["Bias frequency", "Threat score"],
+                "taylor": ["Observed", "CRMSE", "Min CRMSE"], "rank": ["None"], "maprank": ["similar"]}
+LEGEND_SUFFIX = {"cond": [" (F|O)", " (O|F)"], "discrimination": [" not observed", " observed"],
+                 "impact": [" is worse"], "maprank": [" is higher"]}
+NO_LEGEND = {"pithist", "against", "map"}
+NO_LEGEND_NAMES = NO_LEGEND | {"meteo"}          # the meteogram's legend names its own lines (one input only)
+# shape of the perfect-score line that -sp shows
+SP_SHAPE = {"mae": "zero", "mae5": "zero", "loc": "zero", "time": "zero", "change": "zero", "qq": "diagonal",
+            "scatter": "diagonal", "cond": "diagonal", "reliability": "diagonal", "roc": "corner", "droc": "corner",
+            "droc0": "corner", "spreadskill": "ray"}
 
 
 def K(plot):
@@ -130,8 +230,13 @@ def _tmpdir():
         atexit.register(shutil.rmtree, d, True)
         rng = random.Random(12345)
         for f in range(5):
-            with open(os.path.join(d, "in%d.txt" % f), "w") as fh:
-                fh.write("date leadtime location lat lon altitude obs fcst p5 pit\n")
+            # three files per input: probabilistic in<f>.txt (threshold probability, pit, three quantiles),
+            # deterministic det<f>.txt (obs fcst only), ensemble ens<f>.txt (three members and the quantiles)
+            with open(os.path.join(d, "in%d.txt" % f), "w") as fh, open(os.path.join(d, "det%d.txt" % f), "w") as fd, \
+                    open(os.path.join(d, "ens%d.txt" % f), "w") as fe:
+                fh.write("date leadtime location lat lon altitude obs fcst p5 pit q0.1 q0.5 q0.9\n")
+                fd.write("date leadtime location lat lon altitude obs fcst\n")
+                fe.write("date leadtime location lat lon altitude obs fcst e0 e1 e2 q0.1 q0.9\n")
                 for date in DATES:
                     for lt in LEADS:
                         for (i, la, lo, el) in LOCS:
@@ -139,9 +244,18 @@ def _tmpdir():
                             obs = round(r2.uniform(1, 9), 1)
                             fc = round(obs + rng.uniform(-2, 2) + 0.3 * f + 0.02 * i, 1)
                             p5 = round(min(1, max(0, (5 - fc) / 6 + 0.5 + rng.uniform(-.2, .2))), 2)
-                            fh.write("%d %d %d %g %g %g %g %g %g %g\n" %
-                                     (date, lt, i, la, lo, el, obs, fc, p5, round(rng.random(), 2)))
+                            pit = round(rng.random(), 2)
+                            s = round(random.Random(date * 7 + lt * 11 + i * 3 + f).uniform(0.5, 2.5), 1)   # spread
+                            head = "%d %d %d %g %g %g %g %g" % (date, lt, i, la, lo, el, obs, fc)
+                            fh.write("%s %g %g %g %g %g\n" % (head, p5, pit, fc - s, fc, fc + s))
+                            fd.write(head + "\n")
+                            fe.write("%s %g %g %g %g %g\n" % (head, fc - 0.7 * s, fc + 0.1 * s, fc + 0.8 * s, fc - s, fc + s))
     return _TMP["dir"]
+
+
+def input_names(plot):
+    """base names of the input files of a plot kind (= the default legend names)"""
+    return ["%s%d.txt" % (FAMILY.get(plot, "in"), i) for i in range(PLOTS[plot][0])]
 
 
 # ------------------------------------------------------------------ op encoding
@@ -183,7 +297,7 @@ def cli_value(flag, v):
 def argv_of(plot, opts, outfile):
     n, base = PLOTS[plot]
     d = _tmpdir()
-    argv = ["verif"] + [os.path.join(d, "in%d.txt" % i) for i in range(n)] + list(base)
+    argv = ["verif"] + [os.path.join(d, nm) for nm in input_names(plot)] + list(base)
     for f, v in opts:
         if f == "-f":
             continue
@@ -244,18 +358,34 @@ def _hex(c):
         return "bad:%r" % (c,)
 
 
-def _axis_raw(ax, names):
+def _axis_raw(ax, names, plot="mae"):
+    import matplotlib.container
     leg = ax.get_legend()
     lines = ax.get_lines()
     series = []
-    for nm in names:
-        ls = [l for l in lines if l.get_label() == nm]
+    fmt = LINE_LABEL.get(plot)
+    for nm in names if fmt else []:
+        ls = [l for l in lines if l.get_label() == fmt % nm]
         if ls:
             l = ls[0]
             series.append({"color": _hex(l.get_color()), "ls": l.get_linestyle(), "lw": float(l.get_linewidth()),
                            "marker": str(l.get_marker()), "ms": float(l.get_markersize()),
                            "x": [float(v) for v in l.get_xdata()], "y": [float(v) for v in l.get_ydata()]})
+    bfmt = BAR_LABEL.get(plot)
+    for nm in names if bfmt else []:         # one bar container per input: colour and edge width of its bars
+        bs = [c for c in ax.containers if isinstance(c, matplotlib.container.BarContainer) and c.get_label() == bfmt % nm]
+        if bs and len(bs[0].patches):
+            ps = bs[0].patches
+            series.append({"color": same(_hex(q.get_facecolor()) for q in ps), "ls": "bar",
+                           "lw": same(float(q.get_linewidth()) for q in ps), "marker": "bar", "ms": 0.0, "x": [], "y": []})
     ideal = [l for l in lines if l.get_label() == "ideal"]
+    if plot == "reliability":               # the perfect-reliability diagonal carries no label
+        ideal = [l for l in lines if [float(v) for v in l.get_xdata()] == [0.0, 1.0]
+                 and [float(v) for v in l.get_ydata()] == [0.0, 1.0]]
+    # earliest plotted data point of a date axis (the perfect-score line spans the axis, not the data)
+    xs = [float(v) for l in lines if l.get_label() != "ideal"
+          for v in (l.get_xdata() if hasattr(l.get_xdata(), "__len__") else [l.get_xdata()])
+          if plot in TIME_AXIS and v == v]
     grid = [g for g in ax.xaxis.get_gridlines() + ax.yaxis.get_gridlines()]
     xt = [t for t in ax.get_xticklabels()]
     yt = [t for t in ax.get_yticklabels()]
@@ -283,6 +413,8 @@ def _axis_raw(ax, names):
                                             "loc": leg._loc},
         "series": series,
         "ideal": [[float(v) for v in l.get_ydata()] for l in ideal],
+        "idealx": [[float(v) for v in l.get_xdata()] for l in ideal],
+        "minx": min(xs) if xs else None,
         "texts": [(t.get_text(), float(t.get_fontsize())) for t in ax.texts],
         "collections": coll,
     }
@@ -303,7 +435,7 @@ def observe(plot, opts):
         os.remove(outfile)
     n = PLOTS[plot][0]
     od = dict(opts)
-    names = [s.replace("_", " ") for s in od["-leg"].split(",")] if "-leg" in od else ["in%d.txt" % i for i in range(n)]
+    names = [s.replace("_", " ") for s in od["-leg"].split(",")] if "-leg" in od else input_names(plot)
     cap = {}
     orig_save_plot = verif.output.Output._save_plot
     orig_savefig = mpl.savefig
@@ -320,15 +452,13 @@ def observe(plot, opts):
         gca = mpl.gca()
         axes = list(fig.axes)
         cbars = [a for a in axes if a.get_label() == "<colorbar>"]
-        if plot in ("pithist", "against"):
-            adjusted = [a for a in axes if a not in cbars]
-        elif plot == "map":
+        if plot in ALL_AXES:
             adjusted = [a for a in axes if a not in cbars]
         else:
             adjusted = [gca]
         sp = fig.subplotpars
         cap["raw"] = {
-            "axes": [_axis_raw(a, names) for a in adjusted], "naxes": len(axes),
+            "axes": [dict(_axis_raw(a, names, plot), gca=(a is gca)) for a in adjusted], "naxes": len(axes),
             "cbar": [{"label": a.get_ylabel(), "fs": float(a.yaxis.label.get_fontsize())} for a in cbars],
             "size": [float(v) for v in fig.get_size_inches()],
             "pars": [float(sp.left), float(sp.right), float(sp.top), float(sp.bottom), float(sp.wspace), float(sp.hspace)],
@@ -421,6 +551,58 @@ def _annotation_columns(plot, raw):
     return rows, {k: sorted(v) for k, v in cand.items()}
 
 
+def legend_names(plot, texts):
+    """the input names that a legend shows: entries that belong to the diagram itself (observation line, quantile
+    lines, …) dropped, decorations of a name (` (F|O)`, ` observed`, …) removed, repeats of a name merged"""
+    out = []
+    for t in texts:
+        if t in LEGEND_CONST.get(plot, []):
+            continue
+        for suf in LEGEND_SUFFIX.get(plot, []):
+            if t.endswith(suf):
+                t = t[:-len(suf)]
+                break
+        if not out or out[-1] != t:
+            out.append(t)
+    return out
+
+
+def _perfect_line(shape, a):
+    """is the line that indicates the perfect score present in axes `a`?  zero: a horizontal line at the perfect
+    score 0; diagonal: forecast = observation across the axes; corner: through hit rate 1 at false alarm rate 0;
+    ray: from the origin with a positive slope (spread ~ skill)"""
+    for x, y in zip(a.get("idealx", []), a["ideal"]):
+        if shape == "zero" and len(y) >= 2 and all(v == 0.0 for v in y):
+            return True
+        if shape == "diagonal" and len(y) >= 2 and x == y and x[0] < x[-1]:
+            return True
+        if shape == "corner" and (0.0, 1.0) in list(zip(x, y)) and (0.0, 0.0) in list(zip(x, y)) and (1.0, 1.0) in list(zip(x, y)):
+            return True
+        if shape == "ray" and len(y) == 2 and x[0] == 0.0 and y[0] == 0.0 and x[1] > 0 and y[1] > 0:
+            return True
+    return False
+
+
+def daynum(ymd):
+    """days from 1970-01-01 to the calendar date YYYYMMDD (Python's proleptic Gregorian ordinal; no matplotlib)"""
+    import datetime
+    ymd = int(ymd)
+    return datetime.date(ymd // 10000, ymd // 100 % 100, ymd % 100).toordinal() - datetime.date(1970, 1, 1).toordinal()
+
+
+# first data point of the time axes: DATES[0] (the standard plot) / DATES[0] + LEADS[0] hours (time series)
+T0 = {"time": 0.0, "timeseries": LEADS[0] / 24.0, "meteo": LEADS[0] / 24.0}
+
+
+def axis_offset(plot, raw):
+    """where the time axis of the live figure puts 1970-01-01: the x of the first data point minus its calendar day
+    number (0 with matplotlib's default epoch) — so that `lands at that date` is judged against the plotted data"""
+    xs = [a["minx"] for a in raw["axes"] if a.get("minx") is not None]
+    if not xs:
+        return 0.0
+    return min(xs) - (daynum(DATES[0]) + T0[plot])
+
+
 def observed(flag, value, plot, raw):
     """canonical string of the figure property that `flag` documents, read from the raw observation.
     `value` (the requested canonical value) is only used to choose among equivalent spellings."""
@@ -454,8 +636,11 @@ def observed(flag, value, plot, raw):
     if flag in ("-xlog", "-ylog"):
         return same("1" if a[flag[1] + "scale"] == "log" else "0" for a in A)
     n = PLOTS[plot][0]
+    if plot == "igncontrib" and (flag in SERIES or flag in ("-leg", "-legfs", "-legloc")):
+        A = [a for a in A if a.get("gca")]      # the labelled curves and the legend are in the upper panel
     if flag == "-leg":
-        return same("none" if a["legend"] is None else ",".join(esc(t) for t in a["legend"]["texts"][:n]) for a in A)
+        return same("none" if a["legend"] is None else ",".join(esc(t) for t in legend_names(plot, a["legend"]["texts"])[:n])
+                    for a in A)
     if flag == "-legfs":
         return same("0" if a["legend"] is None else same(xr(v) for v in a["legend"]["sizes"]) for a in A)
     if flag == "-legloc":
@@ -468,7 +653,7 @@ def observed(flag, value, plot, raw):
             if len(vals) != n:
                 out.append("series:%d" % len(vals))
             elif flag in ("-lw", "-ms"):
-                out.append(vec(vals))
+                out.append(vec(vals) if all(isinstance(v, float) for v in vals) else ",".join(str(v) for v in vals))
             elif flag == "-lc":
                 want = cyc(value.split(","), n)
                 try:
@@ -497,7 +682,7 @@ def observed(flag, value, plot, raw):
     if flag == "-nogrid":
         return same("0" if a["grid_on"] else "1" for a in A)
     if flag == "-sp":
-        return same("1" if a["ideal"] and all(y == 0.0 for l in a["ideal"] for y in l) else "0" for a in A)
+        return same("1" if _perfect_line(SP_SHAPE.get(plot), a) else "0" for a in A)
     if flag == "-aspect":
         return same(a["aspect"] if isinstance(a["aspect"], str) else xr(a["aspect"]) for a in A)
     if flag == "-fs":
@@ -535,9 +720,13 @@ def observed(flag, value, plot, raw):
     return "?"
 
 
-def wanted(flag, value, plot):
+def wanted(flag, value, plot, raw=None):
     """the documented property value, written from the help text (independent of verif and of the model)"""
     n = PLOTS[plot][0]
+    if plot in TIME_AXIS and flag in ("-xlim", "-xticks"):
+        # a date axis: the values are dates (YYYYMMDD, as everywhere in verif) and land at those dates on the axis
+        off = axis_offset(plot, raw) if raw is not None else 0.0
+        return X(*[daynum(from_xr(t)) + off for t in value.split(",")])
     if value == EMPTY and flag in ("-title", "-xlabel", "-ylabel", "-clabel"):
         return ""
     if flag in ("-title", "-legloc"):
@@ -554,24 +743,66 @@ def wanted(flag, value, plot):
 
 
 def applicable(plot, flag):
-    standard = K(plot) in ("mae", "loc")
+    """mirror of Spec.Appearance.applicable (which properties exist on which plot kind)"""
+    k = K(plot)
     if flag in ("-clabel", "-clim"):
-        return plot == "map"
+        return k == "map"
     if flag in ("-a", "-af", "-afs"):
-        return standard or plot == "map"
-    if flag in ("-lc", "-lw", "-ma", "-ms"):
-        return standard or plot == "reliability"
+        return k in ("mae", "loc", "map")
+    if flag == "-lc":
+        return k in LINE_LABEL or k in BAR_LABEL
+    if flag == "-lw":
+        return (k in LINE_LABEL and (k not in MARKERS or k == "loc")) or k == "discrimination"
+    if flag in ("-ma", "-ms"):
+        return k in LINE_LABEL
     if flag == "-ls":
-        return K(plot) in ("mae", "reliability")
-    if flag in ("-leg", "-legfs", "-legloc"):
-        return standard or plot == "reliability"
+        return k in LINE_LABEL and k not in MARKERS
+    if flag == "-leg":
+        return k not in NO_LEGEND_NAMES
+    if flag in ("-legfs", "-legloc"):
+        return k not in NO_LEGEND
     if flag == "-sp":
-        return standard
+        return k in SP_SHAPE
     return True
 
 
-def observable(plot, od, flag):
+# plot kinds whose class sets `skip_log` (mirror of Model.PlotKinds.skipLog, which reads it from the regenerated
+# tables): Output._adjust_axis leaves the axis scales alone there
+SKIP_LOG = {"droc", "droc0"}
+
+# (diagram, flag) pairs on which the code does not do what the help text says and which are RECORDED as known
+# findings (known_findings.txt): the oracle below still judges them against the documentation — its verdict is
+# matched by the `known:` lines — while the model mirrors the code (Model.PlotKinds.shown), so the canonical line
+# leaves the property out on both sides.
+KNOWN_DEVIATIONS = {(p, f) for p in SKIP_LOG for f in ("-xlog", "-ylog")}
+
+# (diagram, flag) pairs found to deviate and NOT YET DECIDED (fix or known finding).  A failure of the oracle on such
+# a pair is printed as a PENDING-FINDING line (once) and is not a violation; the proposed `known:` line for each is
+# in MERGE_NOTES.md.  Nothing is pending at the moment: hist -leg, meteo -nogrid, -type maprank -legfs 0 and
+# meteo -xlim / -xticks are repaired in /repo (fix_*.diff), droc / droc0 -xlog / -ylog are known findings.
+PENDING_FINDINGS = [
+    # {"match": {"kind": "wrong-value", "diagram": "<kind>", "flag": "<-flag>"}, "what": "<one line>"},
+]
+_PENDING_SEEN = set()
+
+
+def is_pending(sig, message):
+    for e in PENDING_FINDINGS:
+        if all(sig.get(k) == v for k, v in e["match"].items()):
+            key = tuple(sorted(e["match"].items()))
+            if key not in _PENDING_SEEN:
+                _PENDING_SEEN.add(key)
+                print("PENDING-FINDING: property=C17 %s e.g. %s" % (e["what"], message[:300]))
+            return True
+    return False
+
+
+def observable(plot, od, flag, documented=False):
+    """is the property of `flag` part of the canonical line?  documented=True: is it part of what the help text
+    promises (the oracle's question — known deviations of the code included)"""
     if not applicable(plot, flag):
+        return False
+    if not documented and K(plot) in SKIP_LOG and flag in ("-xlog", "-ylog"):
         return False
     if flag in ("-gc", "-gs", "-gw"):
         return "-nogrid" not in od
@@ -657,11 +888,13 @@ def judge(op, impl_out, spec_out):
         return (sig, "the property documented for %s is %s with %s and %s without it: %s" %
                 (f, observed(f, od[f], plot, raw), flag, observed(f, od[f], plot, raw2), cl))
     raw = observe(plot, opts)
-    got = dict(p.split("=", 1) for p in impl_out.split(" ") if "=" in p)
-    for f in FLAGS:
-        if f not in od or not observable(plot, od, f):
+    # every documented property is read from the live figure (not from the canonical line, which leaves out the
+    # recorded deviations); the recorded deviations are judged last so that they never hide another failure
+    order = [f for f in FLAGS if (K(plot), f) not in KNOWN_DEVIATIONS] + [f for f in FLAGS if (K(plot), f) in KNOWN_DEVIATIONS]
+    for f in order:
+        if f not in od or not observable(plot, od, f, documented=True):
             continue
-        want, have = wanted(f, od[f], plot), got.get(NAME[f])
+        want, have = wanted(f, od[f], plot, raw), observed(f, od[f], plot, raw)
         if want == have:
             continue
         if _log_ticks(od, f):
@@ -669,8 +902,11 @@ def judge(op, impl_out, spec_out):
         elif f == "-ms" and have == ",".join(str(int(from_xr(t))) for t in want.split(",")):
             sig = {"kind": "truncated", "option": f}
         else:
-            sig = {"kind": "wrong-value", "option": f, "plot": plot}
-        return (sig, "%s %s: figure shows %s, documented %s: %s" % (f, od[f], have, want, cl))
+            sig = {"kind": "wrong-value", "option": f, "plot": plot, "diagram": K(plot), "flag": f}
+        msg = "%s %s: figure shows %s, documented %s: %s" % (f, od[f], have, want, cl)
+        if is_pending(sig, msg):
+            continue
+        return (sig, msg)
     # the image file: size in pixels when the bounding box is not tightened (a boundary option is given)
     fi = raw["file"]
     if fi["fmt"] in ("png", "jpg") and "-fs" in od and any(m in od for m in ("-left", "-right", "-top", "-bottom")):
@@ -699,6 +935,10 @@ TEXTS = ["T", "Hello", "My_title", "x(1)", "a.b", "Mean_abs_err", EMPTY]
 LABELS = ["XL", "Lead", "y-axis", "abc", "m/s", EMPTY]
 SIZES = [6, 9, 12.5, 20, 7.3]
 COLORS = ["red", "blue", "k", "0.3", "g", "[0:0.2:1]", "[1:0:0]", "m"]
+# dates for -xlim / -xticks on a time axis: around the data (2012-01-01 … 06), month / year / leap-day boundaries, the
+# epoch and the day before it, and the ends of the calendar range of the theorem (1900 … 2100)
+TIME_DATES = [19000101, 19691231, 19700101, 19991231, 20000229, 20111225, 20111231, 20120101, 20120102, 20120103,
+              20120105, 20120106, 20120108, 20120115, 20120229, 20120301, 20121231, 20130101, 21001231]
 LEGLOCS = ["upper_left", "lower_right", "center", "best", "upper_right", "lower_left", "center_left", "lower_center"]
 
 
@@ -724,6 +964,13 @@ def gen_value(flag, rng, plot, chosen):
         return X(rng.choice(SIZES))
     if flag == "-legfs":
         return X(rng.choice(SIZES + [0]))
+    if plot in TIME_AXIS and flag in ("-xlim", "-xticks"):
+        # the meteogram puts a tick on every day and every sixth hour of its axis: a few days around the data only
+        pool = [d for d in TIME_DATES if 20111225 <= d <= 20120108] if plot == "meteo" else TIME_DATES
+        if flag == "-xlim":                             # two dates, lower < upper
+            i = rng.randrange(len(pool) - 1)
+            return X(pool[i], rng.choice(pool[i + 1:]))
+        return X(*sorted(rng.sample(pool, rng.choice([2, 3, 4, 5]))))
     if flag in ("-xlim", "-ylim", "-clim"):
         return X(rng.choice([0.5, 1, 2, 0.75, 0.3]), rng.choice([5, 12, 30, 7.5, 9.9]))
     if flag in ("-xticks", "-yticks"):
@@ -787,6 +1034,8 @@ def gen_config(rng, plot, p, fmt):
             continue
         v = gen_value(f, rng, plot, chosen)
         chosen[f] = v
+    if plot in TIME_AXIS and ("-xlim" in chosen or "-xticks" in chosen):
+        chosen.pop("-xlog", None)           # dates before 1970 are negative axis values: not valid on a log axis
     items = list(chosen.items())
     rng.shuffle(items)
     if items and rng.random() < 0.1:        # an option given twice: the last occurrence counts
@@ -833,56 +1082,116 @@ def _fmt(rng):
 
 
 def _plot(rng):
-    return rng.choice(["mae"] * 5 + ["mae5"] * 3 + ["loc"] * 2 + ["pithist"] * 3 + ["reliability"] * 3 + ["against"] * 3 + ["map"] * 2)
+    return rng.choice(["mae"] * 5 + ["mae5"] * 3 + ["loc"] * 2 + ["pithist"] * 3 + ["reliability"] * 3 + ["against"] * 3 +
+                      ["map"] * 2 + ["time"] * 3 + ["rank", "impact", "maprank"])
+
+
+# plot kinds of fig.props / fig.single (every option); the 27 other diagrams are in fig.core (core options)
+SINGLE_KINDS = ["mae", "loc", "pithist", "reliability", "against", "map", "mae5", "time", "rank", "impact", "maprank"]
+NEW_KINDS = ["time", "rank", "impact", "maprank"]
+CORE = ["-title", "-xlabel", "-ylabel", "-xlim", "-ylim", "-lc", "-lw", "-leg", "-legfs", "-xlog", "-ylog", "-labfs",
+        "-tickfs", "-nogrid", "-dpi", "-fs"]
+# core options drawn together in the quick tier (one figure per group and diagram)
+CORE_GROUPS = [["-title", "-xlabel", "-ylabel"], ["-labfs", "-tickfs"], ["-xlim", "-ylim"], ["-xlog", "-ylog"],
+               ["-lc", "-lw"], ["-leg", "-legfs"], ["-nogrid", "-fs", "-dpi"]]
+
+
+def _one(plot, f, rng):
+    """op line: option f alone (plus what it needs) on a plot kind"""
+    chosen = {}
+    opts = []
+    for need in [f.replace("labels", "s")] if f.endswith("ticklabels") else []:
+        chosen[need] = gen_value(need, rng, plot, chosen)
+        opts.append((need, chosen[need]))
+    if f in ("-af", "-afs"):
+        opts.append(("-a", "1"))
+    v = gen_value(f, rng, plot, chosen)
+    if f == "-af":      # every annotation field the plot kind offers
+        v = "score,key" if K(plot) == "mae" else "lat,lon,elev,location,score,key"
+    opts.append((f, v))
+    return "figprops %s %d %s" % (plot, PLOTS[plot][0], enc_opts(opts + [("-f", "out.png")]))
 
 
 def single_ops(rng, all_plots):
-    """every option alone (plus what it needs) on every plot kind it applies to / on a rotating plot kind"""
-    plots = list(PLOTS)
+    """every option alone (plus what it needs) on every plot kind it applies to / on a rotating plot kind; every core
+    option alone on the date axis and on -type rank / impact / maprank; -sp on every kind with a perfect score"""
     k = 0
+    seen = set()
     for f in FLAGS:
         if f == "-f":
             for fmt in ("png", "jpg", "pdf", "svg", "eps"):
                 yield "figprops mae 2 %s" % enc_opts([("-f", "out.%s" % fmt)])
             continue
-        app = [p for p in plots if applicable(p, f)]
+        app = [p for p in SINGLE_KINDS if applicable(p, f)]
         todo = app if (all_plots or f == "-af") else [app[k % len(app)]]
+        if f in CORE or f == "-xticks":
+            todo = todo + [p for p in NEW_KINDS if p in app and p not in todo]
+        if f == "-sp":
+            todo = [p for p in PLOTS if applicable(p, f)]
         k += 1
         for plot in todo:
+            seen.add((plot, f))
+            yield _one(plot, f, rng)
+
+
+def core_ops(rng, tier):
+    """fig.core: the core options on every documented diagram.  quick: one figure per group of core options and
+    diagram; thorough: every core option alone as well, and random subsets of the core options"""
+    for plot in CORE_KINDS:
+        app = [f for f in CORE if applicable(plot, f)]
+        if tier == "thorough":
+            for f in app:
+                yield _one(plot, f, rng)
+        for g in CORE_GROUPS:
+            fl = [f for f in g if f in app]
+            if fl:
+                chosen = {}
+                opts = [(f, gen_value(f, rng, plot, chosen)) for f in fl]
+                rng.shuffle(opts)
+                yield "figprops %s %d %s" % (plot, PLOTS[plot][0], enc_opts(opts + [("-f", "out.png")]))
+        for _ in range(8 if tier == "thorough" else 0):
+            fl = [f for f in app if rng.random() < 0.4]
+            if plot in TIME_AXIS and "-xlim" in fl and "-xlog" in fl:
+                fl.remove("-xlog")
             chosen = {}
-            opts = []
-            for need in [f.replace("labels", "s")] if f.endswith("ticklabels") else []:
-                chosen[need] = gen_value(need, rng, plot, chosen)
-                opts.append((need, chosen[need]))
-            if f in ("-af", "-afs"):
-                opts.append(("-a", "1"))
-            v = gen_value(f, rng, plot, chosen)
-            if f == "-af":      # every annotation field the plot kind offers
-                v = "score,key" if K(plot) == "mae" else "lat,lon,elev,location,score,key"
-            opts.append((f, v))
-            yield "figprops %s %d %s" % (plot, PLOTS[plot][0], enc_opts(opts + [("-f", "out.png")]))
+            opts = [(f, gen_value(f, rng, plot, chosen)) for f in fl]
+            rng.shuffle(opts)
+            yield "figprops %s %d %s" % (plot, PLOTS[plot][0], enc_opts(opts + [("-f", "out.%s" % _fmt(rng))]))
+
+
+def _indep_op(rng, plot, cfg):
+    flags = [f for f, _ in cfg if f != "-f"]
+    droppable = [f for f in flags if not (f.endswith("ticks") and f.replace("ticks", "ticklabels") in flags)]
+    if len(flags) >= 2 and droppable:
+        return "figindep %s %d %s %s" % (plot, PLOTS[plot][0], enc_opts(cfg), rng.choice(droppable))
+    return None
 
 
 def gen_ops(tier, rng):
     out = [("fig.single", op) for op in single_ops(rng, tier == "thorough")]
+    core = list(core_ops(rng, tier))
+    out += [("fig.core", op) for op in core]
     nrand = 150 if tier == "quick" else 1500
-    pending = []
+    indep = []
     for _ in range(nrand):
         plot = _plot(rng)
         cfg = gen_config(rng, plot, rng.choice([0.1, 0.25, 0.25, 0.5]), _fmt(rng))
         out.append(("fig.props", "figprops %s %d %s" % (plot, PLOTS[plot][0], enc_opts(cfg))))
-        flags = [f for f, _ in cfg if f != "-f"]
-        droppable = [f for f in flags if not (f.endswith("ticks") and f.replace("ticks", "ticklabels") in flags)]
-        if len(flags) >= 2 and droppable:
-            pending.append("figindep %s %d %s %s" % (plot, PLOTS[plot][0], enc_opts(cfg), rng.choice(droppable)))
-    out += [("fig.indep", op) for op in pending]
+        indep.append(_indep_op(rng, plot, cfg))
+    if tier == "thorough":      # independence on the diagrams of fig.core as well
+        for op in core:
+            kind, plot, n, opts, flag = _split(op)
+            if rng.random() < 0.5:
+                indep.append(_indep_op(rng, plot, opts))
+    out += [("fig.indep", op) for op in indep if op]
     prefetch([op for _, op in out])
     return out
 
 
 def search_ops(rng):
-    """failing-input search after a broken obligation / mismatch: every option alone on every plot kind"""
-    out = [("fig.single", op) for op in single_ops(rng, True)]
+    """failing-input search after a broken obligation / mismatch: every option alone on every plot kind of fig.single,
+    every core option alone on every diagram"""
+    out = [("fig.single", op) for op in single_ops(rng, True)] + [("fig.core", op) for op in core_ops(rng, "thorough")]
     prefetch([op for _, op in out])
     return out
 
